@@ -172,10 +172,33 @@ class Monitor(object):
         if e is None:
             fn = code.co_filename
             e = fn.startswith(self.pkg) and not fn.startswith(self.tests)
-            if e and code.co_name in RESTORE_FUNCS:
+            if e and (code.co_name in RESTORE_FUNCS or code in self._restore_codes()):
                 e = 2   # counted by the clock, never a fault address
             self._elig[code] = e
         return e
+
+    def _restore_codes(self):
+        """Code objects of the prec/dps property *getters*: library code restores
+        precision with `finally: ctx.prec -= extra`, which reads the property
+        inside the finally clause - a fault there is a fault in the restore
+        clause itself (outside C11's quantifier), like the setters."""
+        rc = getattr(self, '_rc', None)
+        if rc is None:
+            rc = set()
+            try:
+                import mpmath
+                for ctx in (mpmath.mp, mpmath.iv, mpmath.fp):
+                    for attr in ('prec', 'dps'):
+                        for klass in type(ctx).__mro__:
+                            p = klass.__dict__.get(attr)
+                            if isinstance(p, property):
+                                for fn in (p.fget, p.fset):
+                                    if fn is not None and hasattr(fn, '__code__'):
+                                        rc.add(fn.__code__)
+            except Exception:
+                pass
+            self._rc = rc
+        return rc
 
     def _rel(self, code):
         return code.co_filename[len(self.pkg):]
